@@ -19,7 +19,7 @@ necessary for that exactness — breaking one makes the construction wrong on so
 """
 import re
 
-from ..mir import Mir, Exprs, canon, Call, natural_loops, control_deps_transitive, short_path
+from ..mir import parse_at, Mir, Exprs, canon, Call, natural_loops, control_deps_transitive, short_path
 from ..report import Result, finish
 
 
@@ -87,6 +87,20 @@ def run_rules(ctx, res):
                     decide = mir.fns[cs[0].rkey]
                     dargs = [canon(Exprs(f).operand(a)) for a in cs[0].args]
                     res.inst(N1, "merge-decision-site", cs[0].where, True, "%s(%s)" % (decide.name, dargs))
+    if decide is None:
+        # other spellings of the merge search (position(..).map(StateIndex), a loop): the decision is the bool-valued
+        # stage function over two values of one type mentioning the item/state types that no other such function calls
+        cands = [f for f in stage if f.kind in ("Fn", "AssocFn") and f.output and f.output["s"] == "bool" and len(f.inputs) == 2 and f.inputs[0]["s"] == f.inputs[1]["s"]
+                 and re.search(r"State|StateItem", f.inputs[0]["s"])]
+        called_by_cand = {c.rkey for f in cands for c in f.calls() if c.local}
+        tops = [f for f in cands if f.key not in called_by_cand]
+        if len(tops) == 1:
+            decide = tops[0]
+            users = [(g, c) for g in stage for c in g.calls() if c.local and c.rkey == decide.key]
+            if users:
+                res.inst(N1, "merge-decision-site", users[0][1].where, True, "%s called from %s" % (decide.name, users[0][0].path.rsplit("::", 2)[-2:]))
+            else:
+                decide = None
     if decide is None:
         res.floor("anchor: merge decision (find_map over states calling a core comparison)", 0, 1)
     else:
@@ -163,6 +177,23 @@ def run_rules(ctx, res):
                     if re.search(r"param%d\b" % pidx, txt) and not re.search(r"param%d\.\w+" % pidx, txt):
                         compared |= written  # whole-accumulator comparison covers every field
                     compared |= fields_read(ex.operand(a), "::FirstSet")
+        # the flag is computed, not assumed: no constant "no change" result on a path that may already have written
+        wblocks = set()
+        for bi, b in enumerate(accum.blocks):
+            if b["cleanup"]:
+                continue
+            for s_ in b["stmts"]:
+                if s_["k"] == "assign" and (field_names_of(s_["pl"], pidx)[:1] or (s_["rv"]["k"] == "ref" and s_["rv"]["bk"] == "mut" and field_names_of(s_["rv"]["pl"], pidx)[:1])):
+                    wblocks.add(bi)
+        from ..mir import reach_from
+        after_write = set(reach_from(accum, sorted(wblocks))) | wblocks
+        for bi, b in enumerate(accum.blocks):
+            if b["cleanup"] or bi not in after_write:
+                continue
+            for s_ in b["stmts"]:
+                if s_["k"] == "assign" and s_["rv"]["k"] == "agg" and s_["rv"].get("adt", "").endswith("::DidChange") and s_["rv"]["ops"] and s_["rv"]["ops"][0]["k"] == "const" and "false" in s_["rv"]["ops"][0]["v"]:
+                    f_, l_ = parse_at(s_["span"]["at"])
+                    res.violate(N2, "flag-constant-after-write", "%s:%d" % (f_, l_), "the accumulation step returns a constant `no change` on a path that has already written the FIRST set: a pass whose only effect happens on that path ends the fixpoint too early")
         missing = written - compared
         res.inst(N2, "flag-covers-mutations", accum.where, True, "fields written %s, fields compared for the flag %s" % (sorted(written), sorted(compared & written)))
         if missing or not written:
@@ -196,8 +227,10 @@ def run_rules(ctx, res):
                     continue
                 ce = canon(fx.operand(t["discr"]))
                 conds.append(ce)
-                m = re.match(r"^(Not\()?\w+::(\w+)\(.*\)\.0\)?$", ce)
-                if not (m and any(p.name == m.group(2) for p in passes)):
+                from ..mir import change_flag_condition
+                cf_ = change_flag_condition(ce)
+                m = cf_ if cf_ and all(any(p.name == n_ for p in passes) for n_ in cf_[0]) else None
+                if not m:
                     okd = False
                 else:
                     # leaving the loop on the `false` value of the flag (or true of its negation)
@@ -455,7 +488,7 @@ def run_rules(ctx, res):
         res.inst(N6, "first-of-sequence|%s" % f.name, f.where, True, "epsilon initialised true: %s; %d early exit(s), each clears epsilon: %s" % (true_init, len(early), not missing))
         if not okq:
             res.violate(N6, "first-of-sequence|%s" % f.name, f.where, "FIRST of a symbol sequence must start nullable and every early exit of the loop (a terminal, or a nonterminal that is not nullable) must clear the epsilon flag; %s%d early exit(s) leave it set — the sequence is then considered nullable and the item's own look-ahead is wrongly added" % ("the flag is not initialised to true; " if not true_init else "", len(missing)))
-    res.floor("FIRST-of-sequence loops", len(seqs), 3)
+    res.floor("FIRST-of-sequence loops", len(seqs), 2)  # the look-ahead one and at least one in the FIRST fixpoint (today 3: named and tuple fieldsets have their own)
 
     # ---- N7: a nonterminal of the sequence contributes its FIRST terminals whether or not it is nullable
     n7 = 0
@@ -498,7 +531,7 @@ def run_rules(ctx, res):
             res.inst(N7, "first-terminals|%s" % f.name, f.where, True, "nullable test on %s; terminals added before the test: %s" % (X[:80], ok7))
             if not ok7:
                 res.violate(N7, "first-terminals|%s" % f.name, f.where, "FIRST of a symbol sequence must take in the FIRST terminals of every nonterminal it visits whether or not it is nullable; here `%s.terminals` is %s — a nullable nonterminal then contributes nothing and look-ahead sets come out too small" % (X[:100], "added only on one side of the nullability test" if adders else "never added"))
-    res.floor("nullability tests inside FIRST-of-sequence loops", n7, 3)
+    res.floor("nullability tests inside FIRST-of-sequence loops", n7, 2)
 
     # ---- N8: no symbol of the sequence is passed over: every way round the loop goes through the nullability test
     # of the current symbol (a `continue` before it treats the symbol as nullable and contributes nothing)
@@ -530,7 +563,7 @@ def run_rules(ctx, res):
         res.inst(N8, "no-symbol-skipped|%s" % f.name, f.where, True, "nullability tests at blocks %s; a way round the loop without them: %s" % (sorted(tests), skipped))
         if skipped:
             res.violate(N8, "no-symbol-skipped|%s" % f.name, f.where, "%s can go on to the next symbol of the sequence without having tested the current one's nullability (a `continue` / skipped case): the skipped symbol is treated as if it could vanish, FIRST sets and look-aheads come out too large" % f.name)
-    res.floor("FIRST-of-sequence loops checked for skipped symbols", n8, 3)
+    res.floor("FIRST-of-sequence loops checked for skipped symbols", n8, 2)
 
     # ---- N5
     tr = [f for f in stage if any((c.rpath or "").endswith("HashSet::<T, S, A>::insert") and "Transition" in str(c.callee.get("args")) for c in f.calls())]
